@@ -45,7 +45,7 @@ class TLCResult:
     self.distinct = int(m.group(2)) if m else 0
     m = re.search(r"The depth of the complete state graph search is (\d+)", out)
     self.depth = int(m.group(1)) if m else 0
-    self.violated = re.findall(r"Invariant (\S+) is violated", out)
+    self.violated = re.findall(r"Invariant (\S+) is violated", out) + re.findall(r"The invariant of (\S+) is equal to FALSE", out)
     self.prop_violated = re.findall(r"(?:Action|Temporal) propert(?:y|ies) (\S+)? ?(?:is|were) violated", out)
     self.error = ("Error:" in out) and not self.violated
     self.finished = "Model checking completed" in out or "Finished in" in out
